@@ -41,7 +41,7 @@ class Daemon:
             with self._lock:
                 buf += d
 
-    def wait_for(self, pred, timeout=5.0):
+    def wait_for(self, pred, timeout=30.0):
         t0 = time.time()
         while time.time() - t0 < timeout:
             with self._lock:
@@ -55,7 +55,7 @@ class Daemon:
             time.sleep(0.002)
         return False
 
-    def wait_banner(self, timeout=5.0):
+    def wait_banner(self, timeout=30.0):
         return self.wait_for(lambda o: b'\nO ' in b'\n' + o and o.endswith(b'\n') or (b'\na\n' in b'\n' + o and o.count(b'\n') >= 2 and time.time() > 0 and False), timeout)
 
     def write(self, data):
@@ -72,7 +72,7 @@ class Daemon:
         with self._lock:
             return bytes(self.out).decode('latin-1').split('\n')
 
-    def close(self, timeout=10.0):
+    def close(self, timeout=40.0):
         """Close stdin (end of input) and wait. Returns (rc, stdout lines, stderr text)."""
         try:
             self.p.stdin.close()
@@ -93,7 +93,7 @@ class Daemon:
         return rc, out, err
 
 
-def run_stream(conf, chunks, b=None, gap=0.0, debug=False, timeout=15.0, wait_quiet=None):
+def run_stream(conf, chunks, b=None, gap=0.0, debug=False, timeout=40.0, wait_quiet=None):
     """Feed chunks (each by its own write(), `gap` seconds apart) after the banner, close stdin, collect."""
     d = Daemon(conf, b=b, debug=debug)
     ok = d.wait_banner()
